@@ -628,13 +628,19 @@ class Parser:
         )
 
     def parse_regex(self, stream: TokenStream) -> FilterExpression:
-        pattern = stream.current.value
+        pattern_token = stream.current
+        pattern = pattern_token.value
         flags = 0
         if stream.peek.kind == TOKEN_RE_FLAGS:
             stream.next_token()
             for flag in set(stream.current.value):
                 flags |= self.RE_FLAG_MAP[flag]
-        return RegexLiteral(value=re.compile(pattern, flags))
+        try:
+            return RegexLiteral(value=re.compile(pattern, flags))
+        except re.error as err:
+            raise JSONPathSyntaxError(
+                f"invalid regular expression: {err}", token=pattern_token
+            ) from None
 
     def parse_list_literal(self, stream: TokenStream) -> FilterExpression:
         stream.next_token()
